@@ -35,7 +35,11 @@ def make(spec):
     kw = dict(spec.get("kw", {}))
     init = kw.get("initialize")
     if isinstance(init, dict):  # {"list": [...]} or {"array": [...]}
-        kw["initialize"] = list(init["list"]) if "list" in init else np.array(init["array"], dtype=int)
+        dt = init.get("dtype")
+        if "list" in init:
+            kw["initialize"] = list(init["list"]) if dt is None else [np.dtype(dt).type(v) for v in init["list"]]
+        else:
+            kw["initialize"] = np.array(init["array"], dtype=dt or int)
     how = spec.get("how", "ctor")
     if how == "clone" and spec["cls"] == "VoronoiFPS":
         how = "ctor"  # its **kwargs constructor hides parameters from clone (DESIGN 11.5)
@@ -100,7 +104,13 @@ def spectrum_clear_of_cut(w, cut=1e-12):
     wmax = max(float(np.max(np.abs(w))), 1e-300)
     kept = w > max(100 * cut, 1e-7 * wmax)
     noise = np.abs(w) < min(cut / 5, 200 * np.finfo(float).eps * wmax * len(w))
-    return bool(np.all(kept | noise))
+    if not np.all(kept | noise):
+        return False
+    # a rank-deficient matrix: the size of its rounding-noise eigenvalues depends on how the product was formed (dtype,
+    # memory layout, summation order), so they are only "clearly below the cut" if their a-priori level is
+    if np.any(~kept) and 8 * np.finfo(float).eps * wmax >= cut / 5:
+        return False
+    return True
 
 
 def pcov_spectrum_guard(spec, X):
@@ -235,6 +245,8 @@ def fit(est, X, y, spec, warm=False):
         X = np.asarray(X).astype(np.float32)
     if spec.get("xint") and np.all(np.asarray(X) == np.round(X)):  # whole-number data handed over with an integer dtype
         X = np.asarray(X).astype(spec["xint"])
+    if spec.get("yint") and y is not None and np.all(np.asarray(y) == np.round(y)):
+        y = np.asarray(y).astype(spec["yint"])
     X = forms.present(X, spec.get("xform", "C"))
     y = forms.present(y, spec.get("yform", "C"))
     try:
